@@ -68,6 +68,8 @@ class CallMixin:
                 c = self.reg.get(target)
                 if c is not None and not c.inline:
                     return self.apply_contract(st, c, args, kwargs, node)
+                if not self.inline_calls and not (c is not None and c.inline):
+                    return self.havoc_call(st, f"repo:{f.b}", args, node)
                 return self.inline_repo(st, f.a, f.b, args, kwargs, node)
             if f.how == "closure":
                 return self.inline_closure(st, f, args, kwargs, node)
@@ -187,9 +189,13 @@ class CallMixin:
         fnode = m.functions.get(qual)
         if fnode is None:
             raise Unsupported(f"{self.loc(node)} no function {rel}::{qual}")
-        env = self.bind_params(fnode, args, kwargs, node)
+        if m is self.module:
+            env = self.bind_params(fnode, args, kwargs, node)
         if m is not self.module:
             sub = self.sub_executor(m)
+            sub.abstract, sub.inline_calls, sub.merge = self.abstract, self.inline_calls, self.merge
+            sub.sinks = self.sinks
+            env = sub.bind_params(fnode, args, kwargs, node)
             sub.sinks = self.sinks
             sub.obls = self.obls
             sub.oid_prefix = self.oid_prefix
@@ -306,7 +312,7 @@ class CallMixin:
             else:
                 results = [(None, res)]
         else:
-            results = [(None, c.result_maker(self, st, ctx) if c.result_maker else NONE)]
+            results = [(None, c.result_maker(self, st, ctx) if c.result_maker else (VUnk("generator") if c.generator else NONE))]
         for cond, rv in results:
             s2 = st.fork() if len(results) > 1 else st
             if cond is not None:
